@@ -12,6 +12,7 @@ import (
 	stdmime "mime"
 	stdos "os"
 	"path/filepath"
+	"strconv"
 	"strings"
 	stdsync "sync"
 	"syscall"
@@ -22,6 +23,7 @@ import (
 	"github.com/gabriel-vasile/mimetype/internal/verifsim/lib"
 	"github.com/gabriel-vasile/mimetype/internal/verifsim/model"
 	shimos "github.com/gabriel-vasile/mimetype/internal/verifsim/shim/os"
+	shimtime "github.com/gabriel-vasile/mimetype/internal/verifsim/shim/time"
 	"github.com/gabriel-vasile/mimetype/internal/verifsim/simio"
 )
 
@@ -138,8 +140,9 @@ type OpRes struct {
 }
 
 type opCtx struct {
-	res *OpRes
-	in  []byte
+	res    *OpRes
+	in     []byte
+	nested bool // inside a call a detector made back into the library
 }
 
 // arenas holds one reusable caller buffer per task (task-owned).
@@ -233,6 +236,7 @@ func (w *World) pathOf(ti, oi int) string {
 // Materialise builds the world of a plan. Kernel goroutine, before the run.
 func Materialise(p *Plan, realDir string) *World {
 	w := &World{Plan: p, RealDir: realDir}
+	shimtime.Reset()
 	for _, in := range p.Shared {
 		w.Shared = append(w.Shared, withCanary(in.Bytes()))
 	}
@@ -337,15 +341,36 @@ func (w *World) Cleanup() {
 func makeDetector(e *model.Ext) func([]byte, uint32) bool {
 	pred, id := e.Pred, e.ID
 	return func(raw []byte, limit uint32) bool {
+		var ctx *opCtx
 		if t := core.Cur(); t != nil {
 			t.Yield(core.KDetector, nil, "ext", int64(id))
 			if c, ok := t.Local.(*opCtx); ok && c != nil {
-				c.res.Det = append(c.res.Det, DetCall{Ext: id, Len: len(raw), Limit: limit,
-					RawOK: c.in != nil && bytes.Equal(raw, lib.Header(c.in, limit))})
+				ctx = c
+				if !c.nested {
+					c.res.Det = append(c.res.Det, DetCall{Ext: id, Len: len(raw), Limit: limit,
+						RawOK: c.in != nil && bytes.Equal(raw, lib.Header(c.in, limit))})
+				}
 			}
 		}
 		if pred.Traps(raw) {
 			panic(model.DetectorPanic{Ext: id})
+		}
+		if pred.CallsBack > 0 && ctx != nil && !ctx.nested {
+			// one level only: the detectors met by the nested call decide without calling back
+			ctx.nested = true
+			switch pred.CallsBack {
+			case 1:
+				_ = mimetype.Lookup("text/csv")
+			case 2:
+				_ = mimetype.Lookup("x-verif/nobody")
+			case 3:
+				_ = mimetype.Detect([]byte("%PDF-1.4 called from inside a detector"))
+			case 4:
+				if m := mimetype.Lookup("application/zip"); m != nil {
+					_ = m.Is("application/x-zip-compressed")
+				}
+			}
+			ctx.nested = false
 		}
 		return pred.Eval(raw, limit)
 	}
@@ -674,6 +699,9 @@ func (w *World) exec(t *core.Task, ti, oi int) {
 		case "env":
 			k, v, _ := strings.Cut(arg, "=")
 			_ = stdos.Setenv(k, v)
+		case "clock":
+			sec, _ := strconv.Atoi(arg)
+			shimtime.Advance(shimtime.Duration(sec) * shimtime.Second)
 		}
 	case "extend":
 		t.OpInvoke(oi, tag)
